@@ -285,6 +285,11 @@ int item_check(struct item *it, const IMB_JOB *job, const char *prop, struct mmg
 const char *item_describe(const struct item *it); /* JSON object text */
 int item_is_parking(const struct item *it, int variant);
 const char *item_fault_suite(const struct item *it, const char *kind);
+extern int g_custom_trace[8];
+extern int g_custom_ntrace;
+int imbv_custom_cipher(IMB_JOB *job);
+int imbv_custom_hash(IMB_JOB *job);
+int item_permitted_tag_lens(IMB_HASH_ALG h, int *l);
 void refs_selftest_or_die(void);
 
 /* ------------------------------------------------------------------ engines */
